@@ -54,6 +54,8 @@ Step(e) ==
          ELSE RF(Cl(f.kind # "malformed" /\ Strip(f) = want, "C02:e2e-frame-decodes-to-the-request")
                  \o Cl(f.kind = "malformed" \/ f.dev = dev.id, "C03:e2e-device-id"),
                  "frame-" \o want.kind, Apply(dev, want @@ [dev |-> dev.id]), Apply(devf, f), NoWant)
+    [] e.ev = "OpRaised" ->     \* every request of these scenarios has accepted arguments and a device that answers
+         R(<<"C02:e2e-accepted-request-raised">>, "op-raised", dev, NoWant)
     [] e.ev = "Elapse" -> RF(<<>>, "elapse", Elapse(dev, e.s), Elapse(devf, e.s), want)
     [] e.ev = "Bcast" ->
          LET ok == Gate(e.b) /\ WellFormedFor(dev.fam, e.b) /\ CodeOf(e.b) = dev.code
